@@ -206,6 +206,9 @@ class RuleAttributeCondition(RuleProcessingCondition):
                 raise SigmaConfigurationError(
                     f"Invalid number format '{self.value}' in rule attribute condition {str(self)}."
                 )
+            # int.__eq__(float) and the other int comparison methods return NotImplemented, which
+            # the evaluation below treats as a match.
+            value = float(value)
         elif isinstance(value, date):  # date comparison
             if not isinstance(self.value, str):
                 raise SigmaConfigurationError(
